@@ -280,6 +280,7 @@ func exploreHarness(prog *ssa.Program, fn *ssa.Function, inits []*ssa.Function, 
 				}
 			}
 		}
+		initedPkgs[ifn.Pkg.Pkg.Path()] = true
 		e0.pushCall(st, ifn, nil, nil, nil)
 		e0.run(st)
 		if st.outcome != "return" {
